@@ -534,3 +534,696 @@ Section FieldLine.
       simpl. apply (strip_pad_l " " y eq_refl Ye).
   Qed.
 End FieldLine.
+
+(* ---------- docstring lines ---------- *)
+Definition mq (q : qstyle) : quote := match q with Dq => QD | Sq => QS end.
+Definition qc (q : qstyle) : ascii := match q with Dq => cD | Sq => cS end.
+Definition oq (q : qstyle) : ascii := match q with Dq => cS | Sq => cD end.
+
+Lemma qtok_tok3 q : qtok q = tok3 (qc q).
+Proof. destruct q; reflexivity. Qed.
+
+Lemma text_no_quote q s : str_all plain_char s = true -> has_char (qc q) s = false /\ has_char (oq q) s = false.
+Proof. intros H. destruct q; split; apply (plain_no _ s); auto. Qed.
+
+Lemma open_of_split (q : qstyle) line pre rest :
+  split_first (tok3 (qc q)) line = Some (pre, rest) ->
+  split_first (tok3 (oq q)) line = None ->
+  open_of (tok3 cS) (tok3 cD) line =
+    match split_first (tok3 (qc q)) rest with
+    | Some (between, _) => Some (mq q, true, strip between)
+    | None => Some (mq q, false, strip rest)
+    end.
+Proof.
+  intros H1 H2. unfold open_of. destruct q; simpl qc in *; simpl oq in *; rewrite H1, H2; cbn [tok_of mq]; rewrite H1; reflexivity.
+Qed.
+
+Section DocLines.
+  Variables (ind : string) (q : qstyle).
+  Hypothesis Hind : str_all is_space ind = true.
+
+  Let ind_noq : has_char (qc q) ind = false.
+  Proof. apply spaces_no; [destruct q; reflexivity | exact Hind]. Qed.
+  Let ind_nooq : has_char (oq q) ind = false.
+  Proof. apply spaces_no; [destruct q; reflexivity | exact Hind]. Qed.
+  Let ind_nocolon : has_char ":" ind = false.
+  Proof. now apply spaces_no. Qed.
+  Let tok_nooq : has_char (oq q) (tok3 (qc q)) = false.
+  Proof. destruct q; reflexivity. Qed.
+  Let tok_nocolon : has_char ":" (tok3 (qc q)) = false.
+  Proof. destruct q; reflexivity. Qed.
+
+  Lemma quote_of_contains line : contains (tok3 (qc q)) line = true ->
+    contains (tok3 cD) line || contains (tok3 cS) line = true.
+  Proof. destruct q; simpl qc; intros ->; [reflexivity | apply orb_true_r]. Qed.
+
+  Lemma quoted_body_facts body :
+    edge_ok body = true -> (exists r, body = tok3 (qc q) ++ r) ->
+    String.eqb (strip (ind ++ body)) "" = false /\ prefixb "#" (strip (ind ++ body)) = false.
+  Proof.
+    intros He [r ->]. rewrite strip_pad_l by assumption. destruct q; split; reflexivity.
+  Qed.
+
+  Lemma edge_ok_quoted_l s : text_ok s = true -> edge_ok (tok3 (qc q) ++ s) = true.
+  Proof.
+    intros Hs. destruct (text_ok_parts s Hs) as [_ He].
+    destruct s as [|a s'].
+    - rewrite append_nil_r. destruct q; reflexivity.
+    - apply edge_ok_app; [destruct q; discriminate | discriminate | destruct q; reflexivity | now apply edge_ok_last].
+  Qed.
+
+  Lemma edge_ok_quoted_lr s : edge_ok (tok3 (qc q) ++ s ++ tok3 (qc q)) = true.
+  Proof.
+    apply edge_ok_app; [destruct q; discriminate | nonempty; destruct q; discriminate | destruct q; reflexivity |].
+    change (last_ok (s ++ tok3 (qc q)) = true).
+    rewrite last_ok_app by (destruct q; discriminate). destruct q; reflexivity.
+  Qed.
+
+  (* one-line docstring *)
+  Lemma doc_one_view s : text_ok s = true ->
+    let line := ind ++ qtok q ++ s ++ qtok q in
+    v_isdef (vw line) = false /\ v_quote (vw line) = true /\ v_empty (vw line) = false
+    /\ v_iscomment (vw line) = false /\ v_open (vw line) = Some (mq q, true, s).
+  Proof.
+    intros Hs line. unfold line. rewrite !qtok_tok3.
+    destruct (text_ok_parts s Hs) as [Hp He]. destruct (text_no_quote q s Hp) as [Hq Ho].
+    assert (Hcolon : has_char ":" s = false) by (now apply plain_no).
+    destruct (quoted_body_facts (tok3 (qc q) ++ s ++ tok3 (qc q)) (edge_ok_quoted_lr s) (ex_intro _ _ eq_refl)) as [F1 F2].
+    unfold vw, view; cbn [v_isdef v_quote v_empty v_iscomment v_open].
+    repeat split; try assumption.
+    - apply no_colon_not_def. nochar.
+    - apply quote_of_contains. now apply contains_hit.
+    - rewrite (open_of_split q _ ind (s ++ tok3 (qc q))).
+      + rewrite <- (append_nil_r (s ++ tok3 (qc q))), append_assoc.
+        rewrite split_first_hit by exact Hq. now rewrite strip_edge_ok.
+      + now apply split_first_hit.
+      + apply split_first_none. nochar.
+  Qed.
+
+  (* first line of a multi-line docstring *)
+  Lemma doc_open_view a : text_ok a = true ->
+    let line := ind ++ qtok q ++ a in
+    v_isdef (vw line) = false /\ v_empty (vw line) = false
+    /\ v_iscomment (vw line) = false /\ v_open (vw line) = Some (mq q, false, a).
+  Proof.
+    intros Ha line. unfold line. rewrite !qtok_tok3.
+    destruct (text_ok_parts a Ha) as [Hp He]. destruct (text_no_quote q a Hp) as [Hq Ho].
+    assert (Hcolon : has_char ":" a = false) by (now apply plain_no).
+    destruct (quoted_body_facts (tok3 (qc q) ++ a) (edge_ok_quoted_l a Ha) (ex_intro _ _ eq_refl)) as [F1 F2].
+    unfold vw, view; cbn [v_isdef v_empty v_iscomment v_open].
+    repeat split; try assumption.
+    - apply no_colon_not_def. nochar.
+    - rewrite (open_of_split q _ ind a).
+      + rewrite split_first_none by exact Hq. now rewrite strip_edge_ok.
+      + rewrite <- (append_nil_r a) at 1. rewrite split_first_hit by exact ind_noq. now rewrite append_nil_r.
+      + apply split_first_none. nochar.
+  Qed.
+
+  Lemma close_of_q line : close_of (tok3 cS) (tok3 cD) (mq q) line =
+    match split_first (tok3 (qc q)) line with Some (b, _) => Some (strip b) | None => None end.
+  Proof. destruct q; reflexivity. Qed.
+
+  (* middle line *)
+  Lemma doc_mid_view m : text_ok m = true ->
+    let line := ind ++ m in
+    v_isdef (vw line) = false /\ v_close (mq q) (vw line) = None /\ v_strip (vw line) = m.
+  Proof.
+    intros Hm line. unfold line.
+    destruct (text_ok_parts m Hm) as [Hp He]. destruct (text_no_quote q m Hp) as [Hq Ho].
+    assert (Hcolon : has_char ":" m = false) by (now apply plain_no).
+    repeat split.
+    - apply no_colon_not_def. nochar.
+    - replace (v_close (mq q) (vw (ind ++ m))) with (close_of (tok3 cS) (tok3 cD) (mq q) (ind ++ m))
+        by (destruct q; reflexivity).
+      rewrite close_of_q, split_first_none; [reflexivity | nochar].
+    - unfold vw, view; cbn [v_strip]. now apply strip_pad_l.
+  Qed.
+
+  (* closing line *)
+  Lemma doc_close_view z : text_ok z = true ->
+    let line := ind ++ z ++ qtok q in
+    v_isdef (vw line) = false /\ v_quote (vw line) = true /\ v_close (mq q) (vw line) = Some z.
+  Proof.
+    intros Hz line. unfold line. rewrite !qtok_tok3.
+    destruct (text_ok_parts z Hz) as [Hp He]. destruct (text_no_quote q z Hp) as [Hq Ho].
+    assert (Hcolon : has_char ":" z = false) by (now apply plain_no).
+    assert (Hsplit : split_first (tok3 (qc q)) (ind ++ z ++ tok3 (qc q)) = Some (ind ++ z, "")).
+    { replace (ind ++ z ++ tok3 (qc q)) with ((ind ++ z) ++ tok3 (qc q) ++ "")
+        by (now rewrite append_nil_r, append_assoc).
+      apply split_first_hit. nochar. }
+    repeat split.
+    - apply no_colon_not_def. nochar.
+    - unfold vw, view; cbn [v_quote]. apply quote_of_contains. unfold contains. now rewrite Hsplit.
+    - replace (v_close (mq q) (vw (ind ++ z ++ tok3 (qc q))))
+        with (close_of (tok3 cS) (tok3 cD) (mq q) (ind ++ z ++ tok3 (qc q))) by (destruct q; reflexivity).
+      rewrite close_of_q, Hsplit. f_equal. now apply strip_pad_l.
+  Qed.
+End DocLines.
+
+(* ====================================================================== *)
+(* C. the scanner on a rendered layout                                     *)
+(* ====================================================================== *)
+Definition V (ls : list string) : list lview := map vw ls.
+Opaque vw.
+
+Lemma V_app a b : V (a ++ b) = (V a ++ V b)%list.
+Proof. apply map_app. Qed.
+
+Lemma join_nl_text l : join_nl l = join_text l.
+Proof. reflexivity. Qed.
+
+Section Groups.
+  Variable ind : string.
+  Hypothesis Hind : str_all is_space ind = true.
+
+  Definition cline (c : string) : string := ind ++ "# " ++ c.
+
+  (* ----- pieces of fld_ok ----- *)
+  Lemma fld_ok_parts g : fld_ok g = true ->
+    is_ident (f_name g) = true /\ type_ok (f_type g) = true
+    /\ match f_value g with Some x => value_ok x = true | None => True end
+    /\ forallb mark_ok (f_above g) = true
+    /\ match f_inline g with Some y => mark_ok y = true | None => True end
+    /\ match f_below g with Some d => dstr_ok d = true | None => True end.
+  Proof.
+    unfold fld_ok. intros H.
+    repeat (apply andb_true_iff in H as [H ?]).
+    repeat split; try assumption.
+    - destruct (f_value g); [assumption | exact I].
+    - destruct (f_inline g); [assumption | exact I].
+    - destruct (f_below g); [assumption | exact I].
+  Qed.
+
+  Lemma fline_view g : fld_ok g = true ->
+    let v := vw (field_line ind g) in
+    v_isdef v = true /\ v_defname v = Some (f_name g) /\ v_empty v = false
+    /\ v_comment v = match f_inline g with Some y => y | None => "" end.
+  Proof.
+    intros H. destruct (fld_ok_parts g H) as [H1 [H2 [H3 [_ [H5 _]]]]].
+    apply (field_line_view ind (f_name g) (f_type g) (f_value g) (f_inline g)); assumption.
+  Qed.
+
+  (* ----- the docstring machine ----- *)
+  Lemma doc_open_blanks n rest : doc_open (V (repeat "" n) ++ rest) = doc_open rest.
+  Proof. induction n as [|k IH]; [reflexivity|]. simpl. exact IH. Qed.
+
+  Lemma doc_open_blanks_end n : doc_open (V (repeat "" n)) = "".
+  Proof. rewrite <- (app_nil_r (V _)), doc_open_blanks. reflexivity. Qed.
+
+  Lemma doc_body_mids q ms z rest :
+    forallb text_ok ms = true -> text_ok z = true ->
+    doc_body (mq q) (V (map (fun m => ind ++ m) ms) ++ vw (ind ++ z ++ qtok q) :: rest) = (ms ++ [z])%list.
+  Proof.
+    intros Hms Hz. induction ms as [|m r IH]; simpl.
+    - destruct (doc_close_view ind q Hind z Hz) as [_ [_ Hc]]. now rewrite Hc.
+    - simpl in Hms. apply andb_true_iff in Hms as [Hm Hr].
+      destruct (doc_mid_view ind q Hind m Hm) as [_ [Hc Hs]].
+      rewrite Hc. f_equal; [exact Hs | exact (IH Hr)].
+  Qed.
+
+  Lemma doc_open_below d rest : dstr_ok d = true ->
+    doc_open (V (render_below ind d) ++ rest) = below_text d.
+  Proof.
+    intros Hd. destruct d as [q s | q a ms z]; simpl in Hd.
+    - destruct (doc_one_view ind q Hind s Hd) as [A [B [C [D E]]]].
+      simpl. now rewrite C, A, D, E.
+    - apply andb_true_iff in Hd as [Hd Hz]. apply andb_true_iff in Hd as [Ha Hms].
+      destruct (doc_open_view ind q Hind a Ha) as [A [C [D E]]].
+      unfold render_below. rewrite V_app. simpl V at 1.
+      rewrite <- app_assoc. simpl.
+      rewrite C, A, D, E. simpl app.
+      rewrite (doc_body_mids q ms z rest Hms Hz). reflexivity.
+  Qed.
+
+  Lemma doc_open_group g rest : fld_ok g = true -> doc_open (V (render_fld ind g) ++ rest) = "".
+  Proof.
+    intros H. destruct (fld_ok_parts g H) as [_ [_ [_ [Hab _]]]].
+    unfold render_fld. rewrite V_app, V_app, <- !app_assoc, doc_open_blanks.
+    destruct (f_above g) as [|c cs].
+    - simpl. destruct (fline_view g H) as [A [_ [C _]]]. now rewrite C, A.
+    - simpl in Hab. apply andb_true_iff in Hab as [Hc _].
+      destruct (comment_line_view ind c Hind Hc) as [A [_ [C [D _]]]].
+      unfold V. cbn [map app doc_open]. unfold cline. now rewrite C, A, D.
+  Qed.
+
+  (* ----- lines that do not define f ----- *)
+  Lemma find_field_skip f vs : forall ctx rest,
+    (forall v, In v vs -> defines f v = false) ->
+    find_field f ctx (vs ++ rest) = find_field f (rev vs ++ ctx) rest.
+  Proof.
+    induction vs as [|v r IH]; intros ctx rest H; [reflexivity|].
+    simpl. rewrite (H v (or_introl eq_refl)).
+    rewrite IH by (intros w Hw; apply H; now right).
+    now rewrite <- app_assoc.
+  Qed.
+
+  Lemma not_def_not_defines f v : v_isdef v = false -> defines f v = false.
+  Proof. unfold defines. now intros ->. Qed.
+
+  Lemma below_not_def d : dstr_ok d = true -> forall v, In v (V (render_below ind d)) -> v_isdef v = false.
+  Proof.
+    intros Hd v Hv. destruct d as [q s | q a ms z]; simpl in Hd.
+    - destruct Hv as [<-|[]]. now destruct (doc_one_view ind q Hind s Hd) as [A _].
+    - apply andb_true_iff in Hd as [Hd Hz]. apply andb_true_iff in Hd as [Ha Hms].
+      unfold render_below in Hv. rewrite V_app in Hv. apply in_app_or in Hv as [Hv|Hv].
+      + destruct Hv as [<-|Hv]; [now destruct (doc_open_view ind q Hind a Ha) as [A _]|].
+        unfold V in Hv. rewrite map_map in Hv. apply in_map_iff in Hv as [m [<- Hm]].
+        rewrite forallb_forall in Hms.
+        now destruct (doc_mid_view ind q Hind m (Hms m Hm)) as [A _].
+      + destruct Hv as [<-|[]]. now destruct (doc_close_view ind q Hind z Hz) as [A _].
+  Qed.
+
+  Lemma blanks_views n v : In v (V (repeat "" n)) -> v = vw "".
+  Proof. induction n as [|k IH]; simpl; [intros [] | intros [H|H]; [now subst | exact (IH H)]]. Qed.
+
+  Lemma comments_views cs v : forallb mark_ok cs = true -> In v (V (map cline cs)) ->
+    v_isdef v = false /\ v_quote v = false /\ v_empty v = false /\ v_comment v
+      = v_comment v /\ exists c, In c cs /\ v = vw (cline c).
+  Proof.
+    intros Hcs Hv. unfold V in Hv. rewrite map_map in Hv. apply in_map_iff in Hv as [c [<- Hc]].
+    rewrite forallb_forall in Hcs.
+    destruct (comment_line_view ind c Hind (Hcs c Hc)) as [A [B [C _]]].
+    repeat split; try assumption. now exists c.
+  Qed.
+
+  (* the lines above the field line of a group: blanks and comments *)
+  Definition pre_lines (g : fld) : list string := (repeat "" (f_blank g) ++ map cline (f_above g))%list.
+
+  Lemma render_fld_split g :
+    render_fld ind g = (pre_lines g ++ field_line ind g :: match f_below g with Some d => render_below ind d | None => [] end)%list.
+  Proof. reflexivity. Qed.
+
+  Lemma pre_not_stop g v : fld_ok g = true -> In v (V (pre_lines g)) -> v_isdef v = false /\ v_quote v = false.
+  Proof.
+    intros H Hv. destruct (fld_ok_parts g H) as [_ [_ [_ [Hab _]]]].
+    unfold pre_lines in Hv. rewrite V_app in Hv. apply in_app_or in Hv as [Hv|Hv].
+    - rewrite (blanks_views _ _ Hv). split; reflexivity.
+    - destruct (comments_views _ _ Hab Hv) as [A [B _]]. now split.
+  Qed.
+
+  Lemma group_other f g : fld_ok g = true -> String.eqb (f_name g) f = false ->
+    forall v, In v (V (render_fld ind g)) -> defines f v = false.
+  Proof.
+    intros H Hn v Hv. destruct (fld_ok_parts g H) as [_ [_ [_ [_ [_ Hbe]]]]].
+    rewrite render_fld_split, V_app in Hv. apply in_app_or in Hv as [Hv|Hv].
+    - apply not_def_not_defines. now destruct (pre_not_stop g v H Hv).
+    - destruct Hv as [<-|Hv].
+      + destruct (fline_view g H) as [A [B _]]. unfold defines. now rewrite A, B, Hn.
+      + apply not_def_not_defines. destruct (f_below g) as [d|]; [|destruct Hv].
+        now apply (below_not_def d Hbe).
+  Qed.
+End Groups.
+
+(* ----- the upward walk ----- *)
+Lemma walk_up_app A C :
+  (forall v, In v A -> v_isdef v = false /\ v_quote v = false) -> walk_up (A ++ C) = (A ++ walk_up C)%list.
+Proof.
+  induction A as [|a r IH]; intros H; [reflexivity|].
+  simpl. destruct (H a (or_introl eq_refl)) as [H1 H2]. rewrite H1, H2. simpl.
+  f_equal. apply IH. intros v Hv. apply H. now right.
+Qed.
+
+Lemma walk_up_sub l v : In v (walk_up l) -> In v l /\ v_quote v = false.
+Proof.
+  induction l as [|a r IH]; simpl; [intros []|].
+  destruct (v_isdef a || v_quote a) eqn:E; [intros []|].
+  apply orb_false_iff in E as [_ E2].
+  intros [<-|H]; [split; [now left | exact E2]|]. destruct (IH H) as [H1 H2]. split; [now right | exact H2].
+Qed.
+
+Lemma in_removelast {A} (l : list A) x : In x (removelast l) -> In x l.
+Proof.
+  induction l as [|a r IH]; simpl; [intros []|].
+  destruct r as [|b r']; [intros []|]. intros [<-|H]; [now left | right; now apply IH].
+Qed.
+
+(* C: everything above a group, nearest line first, line 0 last.  quiet: whatever the walk still collects
+   there contributes no comment text *)
+Definition quiet (C : list lview) : Prop :=
+  C <> [] /\ forall v, In v (walk_up (removelast C)) -> v_comment v = "".
+
+Lemma is_space_NL : is_space NL = true.
+Proof. reflexivity. Qed.
+
+Lemma join_nl_cons_empty x l : join_nl ("" :: x :: l) = String NL (join_nl (x :: l)).
+Proof. reflexivity. Qed.
+
+Lemma strip_join_empties E cs :
+  (forall e, In e E -> e = "") -> strip (join_nl (E ++ cs)) = strip (join_nl cs).
+Proof.
+  induction E as [|e r IH]; intros H; [reflexivity|].
+  rewrite (H e (or_introl eq_refl)). simpl app.
+  assert (IH' := IH (fun x Hx => H x (or_intror Hx))).
+  destruct (r ++ cs)%list as [|x l] eqn:E.
+  - destruct r; [|discriminate E]. simpl in E. subst cs. reflexivity.
+  - rewrite join_nl_cons_empty, strip_cons_space by exact is_space_NL. exact IH'.
+Qed.
+
+Lemma join_marks_ok cs : cs <> [] -> forallb mark_ok cs = true ->
+  first_ok (join_nl cs) = true /\ last_ok (join_nl cs) = true /\ join_nl cs <> "".
+Proof.
+  induction cs as [|c r IH]; intros Hne H; [congruence|].
+  simpl in H. apply andb_true_iff in H as [Hc Hr].
+  destruct (mark_ok_parts c Hc) as [_ [He Hn]].
+  destruct r as [|c2 r'].
+  - simpl. repeat split; [now apply edge_ok_first | now apply edge_ok_last | exact Hn].
+  - destruct (IH ltac:(discriminate) Hr) as [_ [I2 I3]].
+    change (join_nl (c :: c2 :: r')) with (c ++ String NL "" ++ join_nl (c2 :: r')).
+    repeat split.
+    + rewrite first_ok_app by exact Hn. now apply edge_ok_first.
+    + rewrite last_ok_app by nonempty. rewrite last_ok_app by exact I3. exact I2.
+    + nonempty.
+Qed.
+
+Lemma strip_join_marks cs : forallb mark_ok cs = true -> strip (join_nl cs) = join_nl cs.
+Proof.
+  intros H. destruct cs as [|c r]; [reflexivity|].
+  destruct (join_marks_ok (c :: r) ltac:(discriminate) H) as [A [B _]].
+  apply strip_edge_ok. unfold edge_ok. unfold last_ok in B. now rewrite A, B.
+Qed.
+
+Section Above.
+  Variable ind : string.
+  Hypothesis Hind : str_all is_space ind = true.
+
+  Lemma filter_blanks n : filter (fun v => negb (v_empty v)) (V (repeat "" n)) = [].
+  Proof. induction n as [|k IH]; [reflexivity|]. simpl. rewrite view_blank. simpl. exact IH. Qed.
+
+  Lemma filter_comments cs : forallb mark_ok cs = true ->
+    filter (fun v => negb (v_empty v)) (V (map (cline ind) cs)) = V (map (cline ind) cs)
+    /\ map v_comment (V (map (cline ind) cs)) = cs.
+  Proof.
+    induction cs as [|c r IH]; intros H; [split; reflexivity|].
+    simpl in H. apply andb_true_iff in H as [Hc Hr]. destruct (IH Hr) as [I1 I2].
+    destruct (comment_line_view ind c Hind Hc) as [_ [_ [C [_ E]]]].
+    unfold V in *. cbn [map filter]. unfold cline at 1 3. rewrite C. cbn [negb].
+    split; [f_equal; exact I1 | f_equal; [exact E | exact I2]].
+  Qed.
+
+  Lemma comment_above_group g C : fld_ok g = true -> quiet C ->
+    comment_above (rev (V (pre_lines ind g)) ++ C) = join_text (f_above g).
+  Proof.
+    intros Hg [Hne Hq]. destruct (fld_ok_parts g Hg) as [_ [_ [_ [Hab _]]]].
+    unfold comment_above. rewrite removelast_app by exact Hne.
+    rewrite walk_up_app.
+    2:{ intros v Hv. apply in_rev in Hv. now apply (pre_not_stop ind Hind g). }
+    rewrite rev_app_distr, rev_involutive, filter_app, map_app.
+    unfold pre_lines. rewrite V_app, filter_app, filter_blanks. simpl app.
+    destruct (filter_comments (f_above g) Hab) as [F1 F2]. rewrite F1, F2.
+    rewrite strip_join_empties.
+    - rewrite strip_join_marks by exact Hab. reflexivity.
+    - intros e He. apply in_map_iff in He as [v [<- Hv]]. apply filter_In in Hv as [Hv _].
+      apply in_rev in Hv. now apply Hq.
+  Qed.
+
+  Lemma last_line_stop g : fld_ok g = true ->
+    exists vs v, V (render_fld ind g) = (vs ++ [v])%list /\ (v_isdef v || v_quote v) = true.
+  Proof.
+    intros Hg. destruct (fld_ok_parts g Hg) as [_ [_ [_ [_ [_ Hbe]]]]].
+    rewrite render_fld_split. destruct (f_below g) as [[q s | q a ms z]|].
+    - exists (V (pre_lines ind g ++ [field_line ind g])), (vw (ind ++ qtok q ++ s ++ qtok q)). split.
+      + rewrite !V_app. simpl. now rewrite <- app_assoc.
+      + destruct (doc_one_view ind q Hind s Hbe) as [_ [B _]]. rewrite B. apply orb_true_r.
+    - simpl in Hbe. apply andb_true_iff in Hbe as [_ Hz].
+      exists (V (pre_lines ind g ++ field_line ind g :: (ind ++ qtok q ++ a) :: map (fun m => ind ++ m) ms)),
+             (vw (ind ++ z ++ qtok q)). split.
+      + unfold render_below, V. rewrite !map_app. cbn [map app]. rewrite map_app. cbn [map app].
+        rewrite <- !app_assoc. reflexivity.
+      + destruct (doc_close_view ind q Hind z Hz) as [_ [B _]]. rewrite B. apply orb_true_r.
+    - exists (V (pre_lines ind g)), (vw (field_line ind g)). split.
+      + now rewrite V_app.
+      + destruct (fline_view ind Hind g Hg) as [A _]. now rewrite A.
+  Qed.
+
+  Lemma quiet_after g C : fld_ok g = true -> C <> [] -> quiet (rev (V (render_fld ind g)) ++ C).
+  Proof.
+    intros Hg Hne. destruct (last_line_stop g Hg) as [vs [v [E Hs]]].
+    split.
+    - rewrite E, rev_app_distr. simpl. discriminate.
+    - rewrite removelast_app by exact Hne. rewrite E, rev_app_distr. simpl. rewrite Hs. intros w [].
+  Qed.
+
+  Lemma quiet_hdr hdr : hdr <> [] -> forallb (fun l => hdr_ok (vw l)) hdr = true -> quiet (rev (V hdr)).
+  Proof.
+    intros Hne H. split.
+    - intros E. apply (f_equal (@rev _)) in E. rewrite rev_involutive in E. destruct hdr; [congruence | discriminate E].
+    - intros v Hv. apply walk_up_sub in Hv as [Hv Hq]. apply in_removelast in Hv. apply in_rev in Hv.
+      unfold V in Hv. apply in_map_iff in Hv as [l [<- Hl]].
+      rewrite forallb_forall in H. specialize (H l Hl). unfold hdr_ok in H.
+      apply andb_true_iff in H as [_ H]. rewrite Hq in H. simpl in H. now apply String.eqb_eq.
+  Qed.
+End Above.
+
+(* ----- the round trip ----- *)
+Definition triple (d : fdoc) : string * string * string := (d_above d, d_inline d, d_below d).
+
+Section RoundTrip.
+  Variable ind : string.
+  Hypothesis Hind : str_all is_space ind = true.
+
+  Lemma blank_not_defines f n v : In v (V (repeat "" n)) -> defines f v = false.
+  Proof. intros H. rewrite (blanks_views n v H), view_blank. reflexivity. Qed.
+
+  Lemma scan_fields f fs : forall C t,
+    forallb fld_ok fs = true -> quiet C ->
+    find_field f C (V (flat_map (render_fld ind) fs ++ repeat "" t)) = option_map triple (docs_fields fs f).
+  Proof.
+    induction fs as [|g fs' IH]; intros C t Hfs HC.
+    - simpl flat_map. simpl app. rewrite <- (app_nil_r (V _)).
+      rewrite find_field_skip by (intros v Hv; now apply (blank_not_defines f t)). reflexivity.
+    - simpl in Hfs. apply andb_true_iff in Hfs as [Hg Hfs'].
+      simpl flat_map. rewrite <- app_assoc, V_app. simpl docs_fields.
+      destruct (String.eqb (f_name g) f) eqn:En.
+      + (* this group declares f *)
+        rewrite render_fld_split, V_app, <- app_assoc.
+        rewrite find_field_skip.
+        2:{ intros v Hv. apply not_def_not_defines. now destruct (pre_not_stop ind Hind g v Hg Hv). }
+        destruct (fline_view ind Hind g Hg) as [A [B [_ D]]].
+        cbn [V map app find_field]. unfold defines. rewrite A, B, En. cbn [andb option_map].
+        unfold triple, fld_doc; cbn [d_above d_inline d_below].
+        rewrite (comment_above_group ind Hind g C Hg HC), D.
+        f_equal. f_equal.
+        destruct (fld_ok_parts g Hg) as [_ [_ [_ [_ [_ Hbe]]]]].
+        destruct (f_below g) as [d|].
+        * now apply doc_open_below.
+        * cbn [map app]. destruct fs' as [|g2 fs2].
+          -- simpl. apply doc_open_blanks_end.
+          -- simpl in Hfs'. apply andb_true_iff in Hfs' as [Hg2 _].
+             simpl flat_map. rewrite <- app_assoc. fold (V (render_fld ind g2 ++ (flat_map (render_fld ind) fs2 ++ repeat "" t))).
+             rewrite V_app. now apply doc_open_group.
+      + (* another field: all its lines are passed over *)
+        rewrite find_field_skip by (now apply (group_other ind Hind f g Hg En)).
+        apply IH; [exact Hfs'|]. apply quiet_after; [exact Hind | exact Hg | apply HC].
+  Qed.
+End RoundTrip.
+
+Lemma spaces_all_space n : str_all is_space (spaces n) = true.
+Proof. now apply str_all_repeat. Qed.
+
+(* MAIN: the scanner, run on the printed layout, returns exactly the documentation written for the field
+   (and None exactly when the class does not declare it) *)
+Theorem scan_render L f :
+  wf_layout L = true ->
+  scan_lines_gen (render L) f = option_map triple (docs L f).
+Proof.
+  unfold wf_layout. intros H. apply andb_true_iff in H as [H Hf]. apply andb_true_iff in H as [Hne Hh].
+  rewrite bridge_view in Hh. rewrite bridge_scan_lines. unfold render, docs.
+  fold (V (l_hdr L ++ flat_map (render_fld (spaces (l_ind L))) (l_fields L) ++ repeat "" (l_trail L))).
+  rewrite V_app, find_field_skip.
+  2:{ intros v Hv. apply not_def_not_defines. unfold V in Hv. apply in_map_iff in Hv as [l [<- Hl]].
+      rewrite forallb_forall in Hh. specialize (Hh l Hl). unfold hdr_ok in Hh.
+      apply andb_true_iff in Hh as [Hh _]. now apply negb_true_iff in Hh. }
+  rewrite app_nil_r. apply scan_fields; [apply spaces_all_space | exact Hf |].
+  apply quiet_hdr; [|exact Hh]. destruct (l_hdr L); [discriminate Hne | discriminate].
+Qed.
+
+(* the same statement one level up: _get_attribute_docstring on a class whose source, once the class docstring
+   has been cut out, is the printed layout *)
+Definition parts_of (d : fdoc) (entry : string) : parts := mkparts (d_above d) (d_inline d) (d_below d) entry.
+
+Theorem scan_class_render k L f :
+  wf_layout L = true -> code_lines k = Some (render L) ->
+  scan_class_gen k f = option_map (fun d => parts_of d (last_assoc f (k_args k) "")) (docs L f).
+Proof.
+  intros Hwf Hc. unfold scan_class_gen, scan_class. rewrite Hc.
+  change (scan_lines HASH COLON EQUALS TRIPLE_S TRIPLE_D (render L) f) with (scan_lines_gen (render L) f).
+  rewrite (scan_render L f Hwf). destruct (docs L f) as [d|]; reflexivity.
+Qed.
+
+(* ====================================================================== *)
+(* D. precedence, nearest class, cache history                             *)
+(* ====================================================================== *)
+Definition parts_prov (d : parts) : provided := mkprov (p_above d) (p_inline d) (p_below d) (p_cls d).
+
+(* the regenerated or-chain of FieldWrapper.help is the documented precedence:
+   help=, docstring below, comment above, inline comment, class-docstring entry; nothing -> no help *)
+Theorem help_precedence explicit d : help_gen explicit d = spec_help explicit (parts_prov d).
+Proof.
+  destruct d as [a i b c]. unfold help_gen, help_of, HELP_CHAIN, spec_help, parts_prov.
+  cbn [first_nonempty get_part p_above p_inline p_below p_cls w_above w_inline w_below w_entry].
+  unfold str_nonempty.
+  destruct explicit as [h|]; cbn [filter];
+    try destruct (String.eqb h "");
+    destruct (String.eqb b "") eqn:Eb, (String.eqb a "") eqn:Ea, (String.eqb i "") eqn:Ei, (String.eqb c "") eqn:Ec;
+    cbn [negb]; rewrite ?Eb, ?Ea, ?Ei, ?Ec; cbn [negb]; reflexivity.
+Qed.
+
+Lemma help_string_chain_same : HELP_STRING_CHAIN = HELP_CHAIN.
+Proof. reflexivity. Qed.
+
+(* ----- accumulation along the MRO ----- *)
+Definition merge_step (d : parts) (acc : parts) (p : part) : parts :=
+  if str_nonempty (get_part p acc) then acc else set_part p (get_part p d) acc.
+
+Lemma merge_step_get d acc p p' :
+  get_part p' (merge_step d acc p)
+  = if part_eqb p p' then (if str_nonempty (get_part p acc) then get_part p acc else get_part p d)
+    else get_part p' acc.
+Proof.
+  unfold merge_step. destruct acc as [a i b c].
+  destruct p, p'; cbn [get_part part_eqb p_above p_inline p_below p_cls];
+    match goal with |- context [str_nonempty ?x] => destruct (str_nonempty x) end; reflexivity.
+Qed.
+
+Lemma merge_gen_part c d p :
+  get_part p (merge_gen c d) = if str_nonempty (get_part p c) then get_part p c else get_part p d.
+Proof.
+  change (merge_gen c d)
+    with (merge_step d (merge_step d (merge_step d (merge_step d c PAbove) PInline) PBelow) PCls).
+  rewrite !merge_step_get. destruct p; reflexivity.
+Qed.
+
+(* first class (in MRO order) whose own scan result has a non-empty p *)
+Fixpoint nearest_part (p : part) (scans : list (option parts)) : string :=
+  match scans with
+  | [] => ""
+  | None :: r => nearest_part p r
+  | Some d :: r => if str_nonempty (get_part p d) then get_part p d else nearest_part p r
+  end.
+
+Definition result_of (o : option parts) : parts := match o with Some c => c | None => EMPTY_PARTS end.
+
+Lemma acc_pure_some scans : forall c p,
+  get_part p (result_of (acc_pure_gen scans (Some c)))
+  = if str_nonempty (get_part p c) then get_part p c else nearest_part p scans.
+Proof.
+  unfold acc_pure_gen.
+  induction scans as [|[d|] r IH]; intros c p; cbn [acc_pure result_of nearest_part].
+  - destruct (str_nonempty (get_part p c)) eqn:E; [reflexivity|].
+    unfold str_nonempty in E. apply negb_false_iff, String.eqb_eq in E. exact E.
+  - rewrite IH. change (merge ACC_PARTS c d) with (merge_gen c d). rewrite merge_gen_part.
+    destruct (str_nonempty (get_part p c)) eqn:E; [now rewrite E|].
+    destruct (str_nonempty (get_part p d)); reflexivity.
+  - apply IH.
+Qed.
+
+(* each part comes from the nearest class of the chain whose own declaration provides it *)
+Theorem nearest_class scans p :
+  get_part p (result_of (acc_pure_gen scans None)) = nearest_part p scans.
+Proof.
+  unfold acc_pure_gen.
+  induction scans as [|[d|] r IH]; cbn [acc_pure nearest_part]; [now destruct p | | exact IH].
+  exact (acc_pure_some r d p).
+Qed.
+
+(* ----- against the spec: chain of (documentation next to the declaration, class-docstring entry) ----- *)
+Definition scan_of (we : option fdoc * string) : option parts :=
+  match fst we with Some d => Some (parts_of d (snd we)) | None => None end.
+Definition prov_of (we : option fdoc * string) : provided := provided_by (fst we) (snd we).
+(* the class documents the field in its class docstring only if it also declares it *)
+Definition entry_declared (we : option fdoc * string) : bool :=
+  match fst we with Some _ => true | None => String.eqb (snd we) "" end.
+
+Definition sel_of (p : part) : provided -> string :=
+  match p with PAbove => w_above | PInline => w_inline | PBelow => w_below | PCls => w_entry end.
+
+Lemma nearest_matches p chain :
+  forallb entry_declared chain = true ->
+  nearest_part p (map scan_of chain) = nearest (sel_of p) (map prov_of chain).
+Proof.
+  induction chain as [|[w e] r IH]; intros H; [reflexivity|].
+  simpl in H. apply andb_true_iff in H as [Hd Hr]. specialize (IH Hr).
+  unfold entry_declared in Hd. simpl in Hd.
+  destruct w as [d|]; cbn [map nearest_part nearest scan_of prov_of fst snd]; rewrite IH.
+  - unfold str_nonempty, provided_by, parts_of.
+    destruct p; cbn [get_part sel_of p_above p_inline p_below p_cls w_above w_inline w_below w_entry];
+      destruct (String.eqb _ ""); reflexivity.
+  - apply String.eqb_eq in Hd. subst e. destruct p; reflexivity.
+Qed.
+
+Theorem nearest_class_partial chain :
+  forallb entry_declared chain = true ->
+  parts_prov (result_of (acc_pure_gen (map scan_of chain) None)) = spec_parts (map prov_of chain).
+Proof.
+  intros H. unfold spec_parts.
+  pose proof (nearest_matches PAbove chain H) as E1. pose proof (nearest_matches PInline chain H) as E2.
+  pose proof (nearest_matches PBelow chain H) as E3. pose proof (nearest_matches PCls chain H) as E4.
+  cbn [sel_of] in E1, E2, E3, E4. rewrite <- E1, <- E2, <- E3, <- E4.
+  rewrite <- !nearest_class. unfold parts_prov. reflexivity.
+Qed.
+
+(* full strength fails: a subclass that documents an inherited field in its class docstring without
+   re-declaring it is skipped altogether *)
+Theorem nearest_class_refuted :
+  exists chain, parts_prov (result_of (acc_pure_gen (map scan_of chain) None)) <> spec_parts (map prov_of chain).
+Proof.
+  exists [(None, "entry in B"); (Some (mkfdoc "" "" ""), "entry in A")]. vm_compute. discriminate.
+Qed.
+
+(* ----- the lru_cache: a first query (fresh cache) is the pure accumulation ----- *)
+Lemma cache_get_set_other st k v k' : k' <> k -> cache_get (cache_set st k v) k' = cache_get st k'.
+Proof.
+  intros Hne. induction st as [|[n w] r IH]; simpl.
+  - destruct (String.eqb k k') eqn:E; [apply String.eqb_eq in E; congruence | reflexivity].
+  - destruct (String.eqb n k) eqn:E; simpl.
+    + apply String.eqb_eq in E. subst n.
+      destruct (String.eqb k k') eqn:E2; [apply String.eqb_eq in E2; congruence | reflexivity].
+    + destruct (String.eqb n k'); [reflexivity | exact IH].
+Qed.
+
+Lemma acc_loop_fresh scan mro : forall created st,
+  NoDup mro ->
+  (forall k, In k mro -> cache_get st k = None) ->
+  match created with Some (k0, _) => ~ In k0 mro | None => True end ->
+  option_map snd (fst (acc_loop ACC_PARTS scan mro created st))
+  = acc_pure_gen (map scan mro) (option_map snd created).
+Proof.
+  unfold acc_pure_gen.
+  induction mro as [|k r IH]; intros created st Hnd Hst Hc; [reflexivity|].
+  inversion Hnd as [|? ? Hk Hr]; subst.
+  cbn [acc_loop map acc_pure]. unfold fetch. rewrite (Hst k (or_introl eq_refl)).
+  assert (Hst1 : forall k', In k' r -> cache_get (cache_set st k (scan k)) k' = None).
+  { intros k' Hk'. rewrite cache_get_set_other by (intros ->; contradiction).
+    apply Hst. now right. }
+  destruct (scan k) as [d|].
+  - destruct created as [[k0 c]|].
+    + rewrite IH; [reflexivity | exact Hr | | intros H; apply Hc; now right].
+      intros k' Hk'. rewrite cache_get_set_other.
+      * now apply Hst1.
+      * intros ->. apply Hc. now right.
+    + rewrite IH; [reflexivity | exact Hr | exact Hst1 | exact Hk].
+  - rewrite IH; [reflexivity | exact Hr | exact Hst1 |].
+    destruct created as [[k0 c]|]; [|exact I]. intros H. apply Hc. now right.
+Qed.
+
+Theorem get_doc_fresh scan mro :
+  NoDup mro -> fst (get_doc_gen scan mro []) = result_of (acc_pure_gen (map scan mro) None).
+Proof.
+  intros Hnd. pose proof (acc_loop_fresh scan mro None [] Hnd (fun _ _ => eq_refl) I) as H.
+  unfold get_doc_gen, get_doc. simpl option_map in H.
+  destruct (acc_loop ACC_PARTS scan mro None []) as [[[k0 c]|] st']; simpl in H |- *; rewrite <- H; reflexivity.
+Qed.
+
+(* ... but a later query can see what an unrelated class wrote into the cached object: D(A, X), X not in A's chain *)
+Theorem history_independent_refuted :
+  exists (scan : string -> option parts) (mroD mroA : list string),
+    NoDup mroD /\ NoDup mroA /\
+    nth 1 (run_queries_gen scan [mroD; mroA] []) EMPTY_PARTS <> fst (get_doc_gen scan mroA []).
+Proof.
+  exists (fun k => if String.eqb k "A" then Some (mkparts "" "inline of A.x" "" "")
+                   else if String.eqb k "X" then Some (mkparts "" "" "below of X.x" "") else None),
+         ["D"; "A"; "X"], ["A"].
+  split; [repeat constructor; simpl; intuition discriminate|].
+  split; [repeat constructor; simpl; intuition|].
+  vm_compute. discriminate.
+Qed.
